@@ -11,7 +11,8 @@ The tables are the ones of `Model.Gem.Tab.St`; what is *declared* here is the sh
   the control state, the enabled events, the enabled alarms, the set alarms;
 * the *current value* of an equipment constant: the last value set (for EstablishCommunicationsTimeout / TimeFormat the
   integer actually in force);
-* S2F15 is **all or nothing**: accepted iff every constant exists and every value lies in `[min, max]`; then every value is
+* S2F15 is **all or nothing**: accepted iff every constant exists and every value lies within the limits the constant declares
+  (a missing `min` or `max` is no limit on that side); then every value is
   stored, in message order;
 * `set_alarm`/`clear_alarm` report (S5F1) **iff** the alarm's set state changes **and** the alarm is enabled at that moment;
   S5F5 lists the requested alarms, S5F7 the enabled ones, each with ALCD bit 8 = currently set.
@@ -75,10 +76,10 @@ def applyAll (s : St) (req : List (Id × Ecv)) : St := req.foldl (fun s p => set
 
 /-- the acceptance condition of S2F15, evaluated on the state before the request -/
 def acceptable (s : St) (p : Id × Ecv) : Prop :=
-  ∃ ec x, s.findEc p.1 = some ec ∧ p.2 = .num x ∧ x.geC ec.min = true ∧ x.leC ec.max = true
+  ∃ ec x, s.findEc p.1 = some ec ∧ p.2 = .num x ∧ x.geO ec.min = true ∧ x.leO ec.max = true
 
 /-- every constant lies within its declared limits -/
-def InRange (s : St) : Prop := ∀ ec ∈ s.ecs, ec.value.geC ec.min = true ∧ ec.value.leC ec.max = true
+def InRange (s : St) : Prop := ∀ ec ∈ s.ecs, ec.value.geO ec.min = true ∧ ec.value.leO ec.max = true
 
 /-- the expected S5F1 reports of a set / clear -/
 def setReports (a : Alarm) (i : Id) : List AlarmRow := if !a.set && a.enabled then [⟨a.code ||| 128, i, a.text⟩] else []
